@@ -202,7 +202,9 @@ func runC09(tier string) int {
 		// expected lines
 		var want []string
 		if formatted {
-			f, _ := cfg.FormatText(strings.Join(norm, "\n"), 5, 0, "f1", 2)
+			var fresh parser.FontConfig // never shared between goroutines or calls
+			json.Unmarshal(b, &fresh)
+			f, _ := fresh.FormatText(strings.Join(norm, "\n"), 5, 0, "f1", 2)
 			want = strings.Split(f, "\n")
 		} else {
 			want = append([]string{}, norm...)
